@@ -458,3 +458,89 @@ func init() {
 	execThroughPrefixes = append(execThroughPrefixes, "(*"+anyT+".Any).Get")
 	execThrough["github.com/cosmos/cosmos-sdk/x/gov/types.ValidateAbstract"] = true
 }
+
+// ---- x/params Subspace: parameters are arbitrary (but fixed within a path) values of their types ----
+
+type SubspaceData struct {
+	vals map[string]Val
+}
+
+const paramsT = "github.com/cosmos/cosmos-sdk/x/params/types"
+
+func subspaceOf(it *Interp, v Val) *SubspaceData {
+	if p, ok := v.(Ptr); ok && p != nil {
+		v = *p
+	}
+	if n, ok := v.(*Native); ok && n.Kind == "subspace" {
+		return n.Data.(*SubspaceData)
+	}
+	if s, ok := v.(*StructV); ok && namedString(s.T) == paramsT+".Subspace" {
+		// zero Subspace built by the target (paramtypes.Subspace{}): shared anonymous data
+		return &SubspaceData{vals: map[string]Val{}}
+	}
+	it.fail("not a params subspace: %s", it.describe(v))
+	return nil
+}
+
+func init() {
+	sp := func(name string, f modelFn) {
+		models["("+paramsT+".Subspace)."+name] = f
+		models["(*"+paramsT+".Subspace)."+name] = f
+	}
+	sp("HasKeyTable", func(it *Interp, a []Val) Val { return TTrue })
+	sp("WithKeyTable", func(it *Interp, a []Val) Val { return a[0] })
+	sp("GetParamSet", func(it *Interp, a []Val) Val {
+		d := subspaceOf(it, a[0])
+		iv := a[2].(IfaceV)
+		p := iv.V.(Ptr)
+		elem := iv.T.Underlying().(*types.Pointer).Elem()
+		key := typeKey(elem)
+		if v, ok := d.vals[key]; ok {
+			*p = copyDeep(v)
+			return nil
+		}
+		v := it.freshValue(elem, "", it.sourceMaker("params."+key), freshOpts{maxLen: it.ex.cfg.ParamMaxLen})
+		d.vals[key] = v
+		*p = copyDeep(v)
+		return nil
+	})
+	sp("SetParamSet", func(it *Interp, a []Val) Val {
+		d := subspaceOf(it, a[0])
+		iv := a[2].(IfaceV)
+		p := iv.V.(Ptr)
+		elem := iv.T.Underlying().(*types.Pointer).Elem()
+		d.vals[typeKey(elem)] = copyDeep(*p)
+		return nil
+	})
+	for _, m := range []string{"Marshal", "MustMarshal", "Unmarshal", "MustUnmarshal", "MarshalJSON", "MustMarshalJSON", "UnmarshalJSON", "MustUnmarshalJSON", "MarshalInterface", "UnmarshalInterface", "MarshalLengthPrefixed", "UnmarshalLengthPrefixed"} {
+		m := m
+		models["(*github.com/cosmos/cosmos-sdk/codec.ProtoCodec)."+m] = func(it *Interp, a []Val) Val { return it.codecMethod(nil, m, a[1:]) }
+	}
+	execThroughPrefixes = append(execThroughPrefixes, "(github.com/cosmos/ibc-go/v3/modules/core/04-channel/types.Packet).Get")
+	execThrough[sdkT+".NewIntFromString"] = true
+}
+
+func init() {
+	const tt = "github.com/cosmos/ibc-go/v3/modules/apps/transfer/types"
+	execThrough[tt+".GetDenomPrefix"] = true
+	models[tt+".ParseDenomTrace"] = func(it *Interp, a []Val) Val {
+		return &Native{Kind: "denomtrace", Data: it.toA(a[0].(*StrV))}
+	}
+	models["("+tt+".DenomTrace).IBCDenom"] = func(it *Interp, a []Val) Val {
+		raw := a[0].(*Native).Data.(*Term)
+		t := App("ibcdenom", SStr, raw)
+		it.strLenTerm(t)
+		return &StrV{T: t}
+	}
+}
+
+const sdkDenomRegex = `^[a-zA-Z][a-zA-Z0-9/:._-]{2,127}$`
+
+func init() {
+	models[sdkT+".ValidateDenom"] = func(it *Interp, a []Val) Val {
+		if it.p.branch(it.regexMatch(sdkDenomRegex, a[0].(*StrV))) {
+			return IfaceV{}
+		}
+		return it.newErr(IfaceV{}, "invalid denom")
+	}
+}
